@@ -58,29 +58,27 @@ Theorem C20_bc_rank_of_key : forall d m n, wf_tmat (bT d) -> in_sub (bT d) m n -
 Proof. exact bc_rank_of_key_data_key. Qed.
 Print Assumptions C20_bc_rank_of_key.
 
-(* the key stored in the parsec_data_t built by data_of: right without k-cyclicity ... *)
-Theorem C20_bc_plain_stored_key : forall d m n, wf_tmat (bT d) -> in_sub (bT d) m n -> bc_is_plain d = true ->
+(* the key stored in the parsec_data_t built by data_of maps back to the tile, for every
+   kp, kq (the k-cyclic data_of was repaired by fix 12f6606) *)
+Theorem C20_bc_kcyclic_stored_key : forall d m n, wf_tmat (bT d) -> in_sub (bT d) m n ->
   tm_key2coords (bT d) (bc_stored_key d m n) = (m, n).
-Proof. exact bc_plain_stored_key_roundtrip. Qed.
-Print Assumptions C20_bc_plain_stored_key.
+Proof. exact bc_stored_key_roundtrip. Qed.
+Print Assumptions C20_bc_kcyclic_stored_key.
 
-(* ... and with k-cyclicity only on the first period of the distribution (partial) ... *)
-Theorem C20_bc_kcyclic_stored_key_partial : forall d m n, wf_tmat (bT d) -> in_sub (bT d) m n ->
-  m + t_oi (bT d) < bkp d * bP d -> n + t_oj (bT d) < bkq d * bQ d ->
-  tm_key2coords (bT d) (bc_stored_key d m n) = (m, n).
-Proof. exact bc_kcyclic_stored_key_first_period. Qed.
-Print Assumptions C20_bc_kcyclic_stored_key_partial.
+Theorem C20_bc_stored_key_injective : forall d m n m' n', wf_tmat (bT d) -> in_sub (bT d) m n ->
+  in_sub (bT d) m' n' -> bc_stored_key d m n = bc_stored_key d m' n' -> m = m' /\ n = n'.
+Proof. exact bc_stored_key_injective. Qed.
+Print Assumptions C20_bc_stored_key_injective.
 
-(* ... the full statement "forall d m n, wf_bc d -> wf_tmat (bT d) -> in_sub (bT d) m n ->
-   tm_key2coords (bT d) (bc_stored_key d m n) = (m, n)" is FALSE of the code
-   (twoDBC_kcyclic_data_of reduces m, n before building the key): FINDING *)
-Theorem C20_bc_kcyclic_stored_key_refuted :
+(* the code before the fix (bc_stored_key_prefix: key built from m, n already reduced modulo
+   the k-cyclic period) violated both statements: regression witness *)
+Theorem C20_bc_kcyclic_stored_key_prefix_refuted :
   exists d m n m' n', wf_bc d /\ wf_tmat (bT d) /\ in_sub (bT d) m n /\ in_sub (bT d) m' n' /\
     (m, n) <> (m', n') /\ bc_rank_of d m n = bc_rank_of d m' n' /\
-    bc_stored_key d m n = bc_stored_key d m' n' /\
-    tm_key2coords (bT d) (bc_stored_key d m n) <> (m, n).
-Proof. exact bc_kcyclic_stored_key_refuted. Qed.
-Print Assumptions C20_bc_kcyclic_stored_key_refuted.
+    bc_stored_key_prefix d m n = bc_stored_key_prefix d m' n' /\
+    tm_key2coords (bT d) (bc_stored_key_prefix d m n) <> (m, n).
+Proof. exact bc_kcyclic_stored_key_prefix_refuted. Qed.
+Print Assumptions C20_bc_kcyclic_stored_key_prefix_refuted.
 
 Theorem C20_bc_vpid_in_range : forall d nbvp m n, 1 <= nbvp -> 0 <= bc_vpid d nbvp m n < nbvp.
 Proof. exact bc_vpid_in_range. Qed.
